@@ -301,6 +301,9 @@ func TestSim(t *testing.T) {
 			res.Rechecks++
 			if tr2 == nil || tr2.Fingerprint() != tr.Fingerprint() {
 				res.Diverged = append(res.Diverged, fmt.Sprintf("case %d seed %d variant %d", i, c.Seed, c.Variant))
+				if os.Getenv("STSIM_DEBUG") != "" && tr2 != nil {
+					fmt.Fprintf(os.Stderr, "DIVERGED case %d\n first:  %v\n second: %v\n", i, tr.Tail, tr2.Tail)
+				}
 			}
 		}
 		for vi, v := range tr.Violations {
